@@ -860,9 +860,10 @@ class Compiler:
             self._compile_expression(node.discriminant)
 
             jump_to_body: List[Tuple[int, int]] = []
-            default_jump = None
+            default_index = None
 
-            # Compile case tests
+            # Compile case tests: every case is tested, in source order, before
+            # the default clause is considered - wherever it is written
             for i, case in enumerate(node.cases):
                 if case.test:
                     self._emit(OpCode.DUP)
@@ -871,10 +872,15 @@ class Compiler:
                     pos = self._emit_jump(OpCode.JUMP_IF_TRUE)
                     jump_to_body.append((pos, i))
                 else:
-                    default_jump = (self._emit_jump(OpCode.JUMP), i)
+                    default_index = i
 
-            # Jump to end if no match
-            jump_end = self._emit_jump(OpCode.JUMP)
+            # No case matched: jump to the default clause, or to the end
+            default_jump = None
+            jump_end = None
+            if default_index is not None:
+                default_jump = (self._emit_jump(OpCode.JUMP), default_index)
+            else:
+                jump_end = self._emit_jump(OpCode.JUMP)
 
             # Case bodies
             case_positions = []
@@ -887,7 +893,8 @@ class Compiler:
                 for stmt in case.consequent:
                     self._compile_statement(stmt)
 
-            self._patch_jump(jump_end)
+            if jump_end is not None:
+                self._patch_jump(jump_end)
             # Patch break jumps: they still hold the discriminant
             for pos in loop_ctx.break_jumps:
                 self._patch_jump(pos)
